@@ -53,8 +53,13 @@ def transition_problems(before, res, ev):
     again = [n for n in ups if n in before.o]
     if again:
         ps.append({'what': 'payload-uploaded-again', 'count': len(again), 'name': again[0]})
-    if ev[0] != 'snap' and ups:
+    if ev[0] not in ('snap', 'snapargs') and ups:
         ps.append({'what': 'upload-by-non-snapshot'})
+    # unchanged data: the same file set is already held by a snapshot of the caller's key family
+    if ev[0] in ('snap', 'snapargs') and ups:
+        fam = before.users[ev[1]]['family']
+        if any(e['fsid'] == ev[2] and before.users[e['owner']]['family'] == fam and e['loc'] in before.o for e in before.ledger):
+            ps.append({'what': 'unchanged-data-transferred', 'uploads': len(ups)})
     return ps
 
 
@@ -62,7 +67,11 @@ def expand(state):
     fsdirs = H.materialize()
     out = []
     N = 2 if (len(state.hist) % 2 == 0) else 1
-    for ev in H.standard_events(state, MENU_T):
+    extra = []
+    for u in sorted(state.users):
+        for order in ('fwd', 'rev'):
+            extra.append(('snapargs', u, 'F6', order))
+    for ev in H.standard_events(state, MENU_T) + extra:
         res = H.apply(state, ev, fsdirs, N=N)
         new = res.state
         vs = []
@@ -110,6 +119,28 @@ def session_histories(kind, depth, menu):
             else:
                 l2 = ledger
             rec(hist + [ev], l2)
+
+    rec([], [])
+    return out
+
+
+def narrow_histories(depth):
+    """Deep but narrow: users A and B (shared key), one file set, delete-all and clean; every
+    history of exactly `depth` events without no-op deletes."""
+    steps = [('snap', 'A', 'F1'), ('snap', 'B', 'F1'), ('delall', 'A'), ('delall', 'B'), ('clean', 'A'), ('clean', 'B')]
+    out = []
+
+    def rec(hist, owners):
+        if len(hist) == depth:
+            out.append(list(hist))
+            return
+        for ev in steps:
+            if ev[0] == 'delall' and ev[1] not in owners:
+                continue
+            if ev[0] == 'clean' and hist and hist[-1][0] == 'clean':
+                continue
+            o2 = owners + [ev[1]] if ev[0] == 'snap' else ([o for o in owners if o != ev[1]] if ev[0] == 'delall' else owners)
+            rec(hist + [ev], o2)
 
     rec([], [])
     return out
@@ -181,6 +212,8 @@ def main():
         for kind, menu in (('enc', ['F1', 'F2'] if t == 'quick' else ['F1', 'F2', 'F5']), ('unenc', ['F1', 'F2', 'F4', 'F5'])):
             for hst in session_histories(kind, sdepth if kind == 'enc' else sdepth + (0 if t == 'quick' else 1), menu):
                 sess.append((kind, hst))
+        for hst in narrow_histories(5 if t == 'quick' else 6):
+            sess.append(('enc', hst))
         sess = common.shuffled(sess, 'sess')
         ncmd = 0
         for n, vs, evs in common.pmap(run_session_case, sess, chunksize=8, ordered=False):
